@@ -470,4 +470,53 @@ def cmsDiffL : List AV → List AV → Nat → Option Nat × Nat
   | _, _, n => (none, n)
 end
 
+/-! ### the hypotheses of the theorems of Spec/AstDiffSpec, evaluated on real snapshots by the driver -/
+
+def cgAllB (q : Nat → Bool) (cms : List CG) : Bool := cms.all (fun cg => cg.all (fun c => q c.1 && q c.2))
+
+mutual
+/-- `AllPos` of Spec/AstDiffSpec as a test: `a` for what can start a region, `c` for comments -/
+def allPosB (a c : Nat → Bool) : AV → Bool
+  | .mk ty _ isn p e cms _ _ en kids =>
+      (!isn || (a p && a e)) && (!(ty == tyPos && p != 0) || a p) && cgAllB c cms &&
+      (!en || kids.all (fun v => a v.pos && a v.stop)) && allPosLB a c kids
+def allPosLB (a c : Nat → Bool) : List AV → Bool
+  | [] => true
+  | v :: vs => allPosB a c v && allPosLB a c vs
+end
+
+def leftOfB (lo : Nat) (p : Nat) : Bool := p ≤ lo
+def atOrAfterB (hi : Nat) (p : Nat) : Bool := hi ≤ p
+
+/-- `OneSide` of Spec/AstDiffSpec as a test -/
+def oneSideB (lo hi : Nat) (r : Rg) (f : AV) : Bool :=
+  (leftOfB lo r.pos && leftOfB lo r.stop && allPosB (leftOfB lo) (leftOfB lo) f) ||
+  (atOrAfterB hi r.pos && allPosB (atOrAfterB hi) (fun _ => true) f)
+
+/-- `Sep` of Spec/AstDiffSpec as a test -/
+def sepB (lo hi : Nat) : List AV → List Rg → List Fate → Bool
+  | f :: fs, r :: rs, ft :: fts =>
+      (match ft with
+       | .same _ => true
+       | _ => oneSideB lo hi r f) && sepB lo hi fs rs fts
+  | _, _, _ => true
+
+/-- the extent of a node with the comments associated with it -/
+def extentOf (n : AV) : Nat × Nat :=
+  n.cms.foldl (fun acc cg => cg.foldl (fun a c => (min a.1 c.1, max a.2 c.2)) acc) (n.pos, n.stop)
+
+/-- the declarations of a file snapshot with their regions and fates: `(decls, regions, fates)` -/
+def declsOf (old new : AV) : Option (List AV × List Rg × List Fate) :=
+  match old.kids, new.kids with
+  | [fo], [fn] =>
+      let regs := fieldRegions { pos := old.pos, stop := old.stop } fo.kids
+      let trip := (fo.kids.zip regs).zip fn.kids
+      match trip.find? (fun x => x.1.1.ty == "[]ast.Decl") with
+      | some ((d, R), dn) =>
+          let m := cmpRows d.kids dn.kids
+          let es := (alignSlices m d.kids.length dn.kids.length).1
+          some (d.kids, elemRegions R none d.kids, fates es 0)
+      | none => none
+  | _, _ => none
+
 end Gopatch.AD
